@@ -290,7 +290,7 @@ theorem rcbPart_spec (hst : ∀ n : Nat, 2 ≤ n → (splitRatio (α := α) (n :
           ∧ ∀ (i : Nat) (nd : PNode α), nodes[i]? = some nd →
               (nd.part = (r : Int) → ∃ k, pr[i]? = some k ∧ 0 ≤ k ∧ k < (npart : Int)
                   ∧ ((assignments leaves).map fun a => key a.1).count (r, i) = 1
-                  ∧ ∃ a ∈ assignments leaves, key a.1 = (r, i) ∧ a.2 = k)
+                  ∧ ∃ a ∈ assignments leaves, key a.1 = (r, i) ∧ a.1.p = nd.p ∧ a.2 = k)
               ∧ (nd.part ≠ (r : Int) → pr[i]? = some (-1)) := by
   rw [mapIdx_ownedRecs]
   have hrl := recsFrom_length 0 w
@@ -368,7 +368,19 @@ theorem rcbPart_spec (hst : ∀ n : Nat, 2 ≤ n → (splitRatio (α := α) (n :
         simp only [beq_iff_eq] at hao
         simp only [Int.toNat_natCast] at hxi
         rw [hao, hxi]
-      refine ⟨a.2, hget, (hArng a haA).1, (hArng a haA).2, ?_, a, haA, hkey, rfl⟩
+      have hap : a.1.p = nd.p := by
+        obtain ⟨_, nodes', hnodes', hmem⟩ := (mem_recsFrom 0 w a.1).mp (hmemA a haA)
+        simp only [beq_iff_eq] at hao
+        simp only [Int.toNat_natCast] at hxi
+        rw [hao] at hnodes' hmem
+        simp only [Nat.sub_zero] at hnodes'
+        rw [hnodes] at hnodes'
+        cases hnodes'
+        obtain ⟨_, nd', hnd', _, hpp⟩ := (mem_ownedRecs r nodes a.1).mp hmem
+        rw [hxi, hnd] at hnd'
+        cases hnd'
+        exact hpp
+      refine ⟨a.2, hget, (hArng a haA).1, (hArng a haA).2, ?_, a, haA, hkey, hap, rfl⟩
       exact List.count_eq_one_of_mem hnodup (List.mem_map.mpr ⟨a, haA, hkey⟩)
     · intro hpart
       have hno : ∀ x ∈ recvOf (assignments leaves) r, x.2.toNat ≠ i := by
